@@ -317,7 +317,7 @@ def main():
         cov['bounded_bound'] = 'see bounded/src/corpus.rs::describe(): ' + (
             'messages per scalar/structured value incl. boundary lengths, raw forms, token sequences <= 3 (quick) / 4 (thorough) over 16 tokens, '
             'full (tag x length 0-16,0xffff x fill) grid, every cut point, every single-fault (offset x 8 kinds), chunkings 1/2/3/7/whole, '
-            'every single cut with 0-2 not-ready results, Interrupted at every offset; add-sequences <= 4; C19: two additions (4 kinds x 3 names, 4 kinds x 2 names) onto 3 parser-shaped containers with repeated and empty groups, traversal of every scalar kind, sets of 0-4 (thorough 0-6) elements and collections of 0-4 (0-6) members inserted out of order, nested ones, 3 calls past the end; names and strings of 1 / 255 / 256 / 257 / '
+            'every single cut with 0-2 not-ready results, Interrupted at every offset; add-sequences <= 4; C19: groups_of on every sequence of group kinds of length <= 5 (thorough 6) over 4 kinds, two additions (4 kinds x 3 names, 4 kinds x 2 names) onto 3 parser-shaped containers with repeated and empty groups, traversal of every scalar kind, sets of 0-4 (thorough 0-6) elements and collections of 0-4 (0-6) members inserted out of order, nested ones, 3 calls past the end; names and strings of 1 / 255 / 256 / 257 / '
             '1024 octets (65535 thorough), non-ASCII attribute and member names, names extending a leading attribute name, a 3000-octet value with '
             'sampled cuts and lasting / single faults inside, every proper prefix through both front ends; C10: user and job names with white space, '
             'upper case, non-ASCII, control characters, 300 octets; C02 stack: nesting 2000 / 40000 (60000 thorough) in child processes on a 2 MiB thread')
